@@ -1,12 +1,6 @@
 """Which worlds, configurations and budgets decide each property."""
 
-PIPE_COMPONENTS = {
-    'real': ['dawgie.pl.schedule', 'dawgie.pl.dag', 'dawgie.pl.farm (Hand, Foreman, dispatch, plow)', 'dawgie.pl.message',
-             'dawgie.pl.state.FSM (non-doctest)', 'dawgie.pl.version', 'dawgie.pl.logger.chronicle', 'dawgie.pl.promotion (disabled)',
-             'dawgie.db.shelve on dbm.dumb', 'dawgie.fe.api.cmd_run', 'twisted Deferred/LoopingCall/deferToThread/Protocol', 'transitions'],
-    'stub': ['reactor (sim.core.SimReactor)', 'TCP (sim.core.SimConn)', 'workers (scripted actors speaking the real wire protocol)',
-             'FSM._security', 'FSM._logging', 'pydot.Dot.write', 'scan.for_factories (in-memory engines)', 'clock (sim.boot.SimDateTime)'],
-}
+from checks.common import PIPE_COMPONENTS  # noqa: E402
 
 PIPE_RULE = ('one run = one generated engine (<=7 algorithms, task/analysis/regress, value-level inputs, feedback), 0-4 targets, '
              'a chooser-driven stream of user events and scripted-worker replies on the real pipeline; '
